@@ -112,6 +112,11 @@ def cq_store(ids, st):
     for b in st["blobs"]:
         nm = b["name"]
         ids.size.setdefault(ids.h(b["sha"]), b["size"])
+        mc = re.match(r"^sha256:([0-9a-fA-F]{64})(-partial)?$", nm)
+        if mc:
+            debris.append("(DColonPartial %s)" % cq_N(ids.h(mc.group(1))) if mc.group(2) else
+                          "(DColon %s %s)" % (cq_N(ids.h(mc.group(1))), cq_N(ids.h(b["sha"]))))
+            continue
         m = re.match(r"^sha256-([0-9a-fA-F]{64})(-partial(-(\d+))?)?$", nm)
         if m and not m.group(2):
             blobs.append("(%s,%s)" % (cq_N(ids.h(m.group(1))), cq_N(ids.h(b["sha"]))))
@@ -276,6 +281,16 @@ def gen_pull(rng, fx, name, fault=None, small=False):
     return op
 
 
+def gen_legacy(rng, fx, uploaded):
+    """the store as an older version left it: some blob files named sha256:<hex>, old partial downloads"""
+    cand = [sha(fx.data[k]) for k in uploaded] + [sha(x.encode()) for x in SYSTEMS + TEMPLATES + LICENSES] + [sha(c) for c in CONFIGS]
+    for k in uploaded:
+        cand += [h for (_, h, _) in fx.probe[k]["det"]]
+    blobs = rng.sample(cand, min(len(cand), rng.randint(1, 4))) + ([sha(b"nothing has this content")] if rng.random() < 0.3 else [])
+    partials = [sha(fx.data[rng.choice(fx.names)])] if rng.random() < 0.5 else []
+    return {"op": "legacy", "blobs": blobs, "partials": partials}
+
+
 def gen_history(rng, fx, n_ops, klass):
     """one history; returns list of ops (harness format, plus private '_' keys used for the oracle)"""
     ops, used, uploaded = [], [], []
@@ -333,11 +348,20 @@ def gen_history(rng, fx, n_ops, klass):
             op = {"op": "copy", "src": rnd_name(rng, used, 0.95), "dst": rnd_name(rng, used, 0.55)}
             ops.append(op)
             used.append(op["dst"])
-        elif r < 0.88:
+        elif r < 0.86:
             ops.append({"op": "delete", "name": rnd_name(rng, used, 0.95)})
+        elif r < 0.875 and uploaded:
+            # does the blob exist?  both spellings name one file, the hex case is kept
+            h = sha(fx.data[rng.choice(uploaded if rng.random() < 0.8 else fx.names)])
+            ops.append({"op": "head", "digest": rng.choice(["sha256:" + h, "sha256-" + h, "sha256:" + h.upper(), "sha256-" + h.upper()])})
+        elif r < 0.89 and klass != "pull":
+            ops.append(gen_legacy(rng, fx, uploaded))
+            ops.append({"op": "startup"})
         else:
             ops.append({"op": "startup"})
-    if rng.random() < 0.7:
+    if klass != "pull" and rng.random() < 0.35:
+        ops.append(gen_legacy(rng, fx, uploaded))
+    if rng.random() < 0.7 or (ops and ops[-1]["op"] == "legacy"):
         ops.append({"op": "startup"})
     return ops
 
@@ -367,6 +391,16 @@ CORPUS = [
         {"op": "blob", "digest": "sha256:" + sha(fx.data["gt"]), "data": fx.data["gt"].hex(), "_fx": "gt"},
         {"op": "create", "name": "x", "files": {"m.gguf": "sha256:" + sha(fx.data["gt"])}, "_fx": "gt",
          "license": fx.det_bytes[("gt", 5)].decode(), "parameters": {"temperature": 0.5}}]),
+    # a store of an older version: blob files spelled sha256:<hex>; start-up has to rename them before it prunes
+    ("legacy-colon-blobs", lambda fx: [
+        {"op": "blob", "digest": "sha256:" + sha(fx.data["gt"]), "data": fx.data["gt"].hex(), "_fx": "gt"},
+        {"op": "create", "name": "a", "files": {"m.gguf": "sha256:" + sha(fx.data["gt"])}, "_fx": "gt", "system": "You are S1."},
+        {"op": "create", "name": "b", "from": "a", "system": "You are S2."},
+        {"op": "legacy", "blobs": [sha(fx.data["gt"]), sha(b"You are S1."), fx.probe["gt"]["det"][0][1], sha(b"absent")],
+         "partials": [sha(fx.data["g0"])]},
+        {"op": "startup"},
+        {"op": "startup"},
+        {"op": "delete", "name": "a"}]),
     # pull of a name whose default host is stored with another letter case
     ("pull-default-host-case", lambda fx: [
         {"op": "blob", "digest": "sha256:" + sha(fx.data["g0"]), "data": fx.data["g0"].hex(), "_fx": "g0"},
@@ -484,6 +518,16 @@ def op_to_coq(ids, fx, op, before, after):
     raise ValueError(k)
 
 
+def act_to_coq(ids, fx, op, before, after):
+    """an element of a history for the model: an API operation / start-up, or the legacy scaffolding"""
+    if op["op"] == "legacy":
+        return "(ALegacy %s %s)" % (cq_list([cq_N(ids.h(h)) for h in op.get("blobs", [])], "N"),
+                                    cq_list([cq_N(ids.h(h)) for h in op.get("partials", [])], "N"))
+    if op["op"] == "head":
+        return "(AHead %s)" % ids.digest(op["digest"])
+    return "(AOp %s)" % op_to_coq(ids, fx, op, before, after)
+
+
 def res_class(op, o):
     code = o.get("code")
     if "panic" in o:
@@ -509,7 +553,7 @@ def render_history(fx, ops, obs):
         # register sizes first so that contents written by this op are known
         for b in st["blobs"]:
             ids.size.setdefault(ids.h(b["sha"]), b["size"])
-        steps.append("(MkStep %s %s %s)" % (op_to_coq(ids, fx, op, before, st), res_class(op, o), cq_store(ids, st)))
+        steps.append("(MkStep %s %s %s)" % (act_to_coq(ids, fx, op, before, st), res_class(op, o), cq_store(ids, st)))
         before = st
     return "chk_history %s %s" % (ids.tbl(), cq_list(steps, "step"))
 
@@ -543,6 +587,8 @@ def check_complete(st, m):
 def monitor_step(op, before, o):
     """the property on one step of the real store.  Returns list of (sig, what)."""
     out = []
+    if op["op"] == "legacy":
+        return out  # scaffolding: the store of an older version is planted, nothing to judge
     st = o["state"]
     api = o.get("api") or {}
     listed = api.get("listed")
@@ -695,7 +741,8 @@ def run(ctx):
                        "inputs of the model, read off the implementation's resulting manifest / a probe run; the monitor checks them independently",
                        "directories are not modelled; the monitor checks that start-up prune leaves no empty manifest directory"]
     ctx.proof_stage(["Store"], "Store/Properties_C04.v", extra_targets=["Store/Corr.v"],
-                    expect_theorems=["C04_listed_complete", "C04_frame", "C04_prune_exact", "C04_case_unique", "C04_get_existing_order_free"])
+                    expect_theorems=["C04_listed_complete", "C04_frame", "C04_prune_exact", "C04_case_unique", "C04_get_existing_order_free",
+                                     "C04_fixblobs_migrates", "C04_fixblobs_idempotent"])
     if not ctx.quick():
         ctx.coqchk(["V.Store.Properties_C04"])
     binp = ctx.go_build("c04")
@@ -796,7 +843,7 @@ MANIFEST = {
                   "create FROM a missing model, pull re-parsing the short name, getExistingName). Theorems are stated for histories whose creates meet the "
                   "decidable guard create_check (proved to hold for every create FROM a model; false only for the contrived class recorded as known finding "
                   "C04-create-deletes-own-layer, refuted without the guard) and whose pulls meet served_ok (honest registry; C03 covers dishonest ones). "
-                  "'Can be shown' is proved as 'has a model layer' under ops_have_model (known finding: adapter-only models). Trusted: Coq kernel/vm_compute; "
+                  "'Can be shown' is proved as: all layers served + a model layer + every layer content well-formed for its media type, under ops_have_model (known finding: adapter-only models) and ops_wf (well-formed request contents, arbitrary wf). fixBlobs is modelled and proved to migrate old-version stores (C04_fixblobs_migrates) and to be idempotent. Trusted: Coq kernel/vm_compute; "
                   "the model-to-code tie is differential testing (generator-bounded); contents the server derives itself are oracle inputs of the model; "
                   "directories are not modelled.",
     "technique": "Coq proof (invariant by induction over the operation list and over the effect list of each operation) + model/implementation differential check",
